@@ -162,10 +162,12 @@ theorem C14_idempotent_any_batch_partial (F : File) (cfg cfg2 : Cfg) (st : Store
 
 /-- **Repeating the import reports success and changes nothing** (outside the
 recorded shape): after a successful import, a second import of the same files
-with the same batch size — even with write failures armed, none is reached —
+with the same batch size, neither of them cancelled — even with write failures
+armed, none is reached —
 reports success and leaves both stores exactly as they are. -/
 theorem C14_idempotent_partial (F : File) (cfg cfg2 : Cfg) (st : Stores) (hh : Healthy st) (heq : EqualHeights st)
-    (hbs : cfg.bs ≥ 1) (hsame : cfg2.bs = cfg.bs) (hshape : f7Shape (obsOf st) F = false)
+    (hbs : cfg.bs ≥ 1) (hsame : cfg2.bs = cfg.bs) (hnc : cfg.cancelAt = none) (hnc2 : cfg2.cancelAt = none)
+    (hshape : f7Shape (obsOf st) F = false)
     (hok : (importStores F cfg st).1 = none) :
     (importStores F cfg2 (importStores F cfg st).2).1 = none ∧
     (importStores F cfg2 (importStores F cfg st).2).2 = (importStores F cfg st).2 := by
@@ -179,7 +181,11 @@ theorem C14_idempotent_partial (F : File) (cfg cfg2 : Cfg) (st : Stores) (hh : H
   have hl2 : Fl.length ≥ 1 := hl2
   unfold importStores at hok ⊢
   simp only at hok ⊢
-  obtain ⟨hpre, hc, hv⟩ := importRun_ok_facts F cfg _ hok
+  obtain ⟨hpre, hc, hv0⟩ := importRun_ok_facts F cfg _ hok
+  have hv : validateBlocks (validatedBody F cfg2) cfg2.bs = true := by
+    rw [validatedBody_none F cfg2 hnc2, hsame]
+    rw [validatedBody_none F cfg hnc] at hv0
+    exact hv0
   obtain ⟨_, hne, hN, _⟩ := preChecks_none F hpre
   have hlen : F.blocks.length ≥ 1 := by
     cases hb : F.blocks with
@@ -193,7 +199,7 @@ theorem C14_idempotent_partial (F : File) (cfg cfg2 : Cfg) (st : Stores) (hh : H
     have hcov := importRun_covered_gen F cfg2 (B ++ F.blocks.drop B.length) (Fl ++ F.filters.drop B.length)
       (by rw [List.length_append]; omega) (by rw [List.length_append]; omega)
       (by simp only [List.length_append, List.length_drop]; unfold endHeight; omega)
-    exact hcov.2.mpr ⟨hpre, hc2, hsame ▸ hv⟩
+    exact hcov.2.mpr ⟨hpre, hc2, hv⟩
   · have e3 : ∀ B Fl, (obsOf (mk B Fl)).blocks = B := fun _ _ => rfl
     have e4 : ∀ B Fl, (obsOf (mk B Fl)).filters = Fl := fun _ _ => rfl
     have he : endHeight F ≤ B.length - 1 := by
@@ -204,7 +210,7 @@ theorem C14_idempotent_partial (F : File) (cfg cfg2 : Cfg) (st : Stores) (hh : H
     have hp := importRun_covered F cfg B Fl B.length rfl heq.symm hl1 he
     rw [hp.1]
     have hcov := importRun_covered_gen F cfg2 B Fl hl1 hl2 (by omega)
-    exact hcov.2.mpr ⟨hpre, hc, hsame ▸ hv⟩
+    exact hcov.2.mpr ⟨hpre, hc, hv⟩
 
 /-- **Failure clause, full statement** (false in the recorded shape, see the counterexample). -/
 def C14_failure : Prop :=
@@ -380,7 +386,12 @@ theorem C14_success_chain_valid_partial (F : File) (cfg : Cfg) (st : Stores) (hh
   by_cases hs : F.bstart = 0
   · have hp := importRun_zero F cfg B Fl B.length hs hbs rfl heq.symm hl1
     obtain ⟨_, hst⟩ := hp.1 hok
-    obtain ⟨_, hc, hv⟩ := importRun_ok_facts F cfg _ hok
+    by_cases hch : (importRun F cfg (mk B Fl)).2.st = mk B Fl
+    · -- nothing was written (e.g. the context was cancelled during validation and there was nothing to append)
+      rw [hch]
+      simp only [chainOk, e3, List.drop_length, List.all_nil, Bool.and_true, Bool.or_eq_true, Bool.not_eq_true']
+      cases connected B <;> simp
+    obtain ⟨_, hc, hv, _⟩ := importRun_written_validated F cfg _ hch
     obtain ⟨hval, hconn⟩ := chain_level_zero F cfg.bs B Fl hs hl1 heq hc hv
     rw [hst]
     simp only [chainOk, e3, List.drop_left', hval, Bool.and_true, Bool.or_eq_true, Bool.not_eq_true']
@@ -417,12 +428,13 @@ theorem C14_validator_obligations (body : List BHdr) (bs : Nat) (hbs : bs ≥ 1)
 verdict is exactly: every file index `1 .. len-1` (heights `(startHeight, end]`)
 passes `ValidatePair` (PrevBlock link, proof of work, difficulty, timestamp)
 against the index before it, plus the first-batch rule for index 0.  (b) A
-successful `Import` — any stores, any batch size — ran that verdict over the WHOLE
+successful `Import` whose context was not cancelled — any stores, any batch size —
+ran that verdict over the WHOLE
 file, from index 0 (`C14_source_facts`: the iterators in `Import` start at `0`),
 so every header the import can write (index ≥ 1 for file start 0, see
 `C14_success_chain_valid_partial`) was pair-checked, in particular the first one
 above the existing tip. -/
-theorem C14_validated_range (F : File) (cfg : Cfg) (st : Stores) :
+theorem C14_validated_range (F : File) (cfg : Cfg) (st : Stores) (hnc : cfg.cancelAt = none) :
     (validateBlocks F.blocks cfg.bs = true ↔
       ((min cfg.bs F.blocks.length = 1 → (F.blocks.head?.map (·.valid)).getD true = true) ∧
        ∀ i a c, F.blocks[i]? = some a → F.blocks[i + 1]? = some c → pairOk a c = true)) ∧
@@ -430,6 +442,7 @@ theorem C14_validated_range (F : File) (cfg : Cfg) (st : Stores) :
       ∀ i a c, F.blocks[i]? = some a → F.blocks[i + 1]? = some c → pairOk a c = true) := by
   refine ⟨validateBlocks_iff F.blocks cfg.bs, fun hok i a c ha hc => ?_⟩
   obtain ⟨_, _, hv⟩ := importRun_ok_facts F cfg st hok
+  rw [validatedBody_none F cfg hnc] at hv
   exact validated_pairs F.blocks cfg.bs i a c hv ha hc
 
 /-- the validator's gap, as a fact of the model: with a first batch of two or
@@ -491,8 +504,9 @@ theorem C14_failure_all_partial (F : File) (cfg : Cfg) (st : Stores) (e : Err) (
       cases connected B <;> simp
     unfold importStores at herr ⊢
     simp only at herr ⊢
-    by_cases hchk : preChecks F = none ∧ continuity F (mk B Fl) = none ∧ validateBlocks F.blocks cfg.bs = true
-    · obtain ⟨_, hc, hv⟩ := hchk
+    by_cases hch : (importRun F cfg (mk B Fl)).2.st = mk B Fl
+    · exact hunch _ hch
+    · obtain ⟨_, hc, hv, _⟩ := importRun_written_validated F cfg _ hch
       by_cases hs : F.bstart = 0
       · have hp := importRun_zero F cfg B Fl B.length hs hbs rfl heq.symm hl1
         obtain ⟨j, _, hst⟩ := hp.2 e herr
@@ -508,21 +522,58 @@ theorem C14_failure_all_partial (F : File) (cfg : Cfg) (st : Stores) (e : Err) (
           · omega
           · rw [← heq, Nat.min_self] at h; omega
         exact hunch _ (importRun_covered F cfg B Fl B.length rfl heq.symm hl1 he).1
-    · have h' : preChecks F ≠ none ∨ continuity F (mk B Fl) ≠ none ∨ validateBlocks F.blocks cfg.bs = false := by
-        by_cases h1 : preChecks F = none
-        · by_cases h2 : continuity F (mk B Fl) = none
-          · right; right
-            cases hv : validateBlocks F.blocks cfg.bs with
-            | false => rfl
-            | true => exact absurd ⟨h1, h2, hv⟩ hchk
-          · exact Or.inr (Or.inl h2)
-        · exact Or.inl h1
-      exact hunch _ (importRun_early F cfg (mk B Fl) h').1
   have hlv : ((obsOf st).blocks.length != (obsOf st).filters.length ||
       (obsOf (importStores F cfg st).2).blocks.length == (obsOf (importStores F cfg st).2).filters.length) = true := by
     have : (obsOf (importStores F cfg st).2).blocks.length = (obsOf (importStores F cfg st).2).filters.length := hlevel
     rw [this]; simp
   simp only [failureOk, hfc, hchain, hlv, Bool.and_self]
+
+/-! ### Context cancellation
+
+`cfg.cancelAt = some c`: the import's context is cancelled, for good, from its
+`c`-th poll on.  The importer polls it once per batch in the block-header
+validator, once per batch in the filter-header validator (both RETURN NIL when
+they see it cancelled — `Gen.Import.validatorsReturnNilOnCancel` — so a
+cancellation during validation lets the import go on with a file that was only
+partly validated) and once per iteration of the write loop, BEFORE the batch is
+read and written (`Gen.Import.cancelCheckBeforeProcessBatch`).  That last check
+is all that stands between a partly validated file and the stores. -/
+
+/-- **A cancelled import is safe** — for ANY stores, file, batch size and cancel
+point: (1) if the cancellation is noticed at or before the write loop's first
+look at the context (before, or anywhere during, the two validation passes),
+nothing is written at all; (2) whenever the import has written anything — it
+may then have succeeded or failed, cancelled or not — every check had passed on
+the WHOLE file (metadata, continuity with the stores, every header pair-checked
+against its predecessor) and the context was not yet cancelled when the first
+batch was written. -/
+theorem C14_cancel_safe (F : File) (cfg : Cfg) (st : Stores) :
+    (cancelled cfg (2 * valBatches F cfg) = true → (importStores F cfg st).2 = st) ∧
+    ((importStores F cfg st).2 ≠ st →
+      preChecks F = none ∧ continuity F st = none ∧ validateBlocks F.blocks cfg.bs = true ∧
+      cancelled cfg (2 * valBatches F cfg) = false ∧
+      ∀ i a c, F.blocks[i]? = some a → F.blocks[i + 1]? = some c → pairOk a c = true) := by
+  have key : (importStores F cfg st).2 ≠ st →
+      preChecks F = none ∧ continuity F st = none ∧ validateBlocks F.blocks cfg.bs = true ∧
+      cancelled cfg (2 * valBatches F cfg) = false := importRun_written_validated F cfg st
+  refine ⟨fun hcan => ?_, fun hch => ?_⟩
+  · by_cases hch : (importStores F cfg st).2 = st
+    · exact hch
+    · have := (key hch).2.2.2
+      rw [hcan] at this; cases this
+  · obtain ⟨h1, h2, h3, h4⟩ := key hch
+    exact ⟨h1, h2, h3, h4, fun i a c ha hc => validated_pairs F.blocks cfg.bs i a c h3 ha hc⟩
+
+/-- a cancellation noticed by the write loop stops it there: level stores, file
+from height 0 — on the error the stores hold their old contents plus a common
+prefix of the file's new headers (whole batches written before the cancellation),
+connected and pair-validated: the failure clause, `C14_failure_all_partial`,
+covers `Err.cancel` like every other error. -/
+theorem C14_cancel_failure_partial (F : File) (cfg : Cfg) (st : Stores) (hh : Healthy st) (heq : EqualHeights st)
+    (hbs : cfg.bs ≥ 1) (hshape : f7Shape (obsOf st) F = false)
+    (herr : (importStores F cfg st).1 = some .cancel) :
+    failureOk (obsOf st) F (obsOf (importStores F cfg st).2) = true :=
+  C14_failure_all_partial F cfg st .cancel hh heq hbs hshape herr
 
 /-! ### Block store ahead of the filter store
 
@@ -568,17 +619,27 @@ theorem block_ahead_unchanged (F : File) (cfg : Cfg) (st : Stores) (hh : Healthy
       rcases hshape with h | h
       · omega
       · omega
-    have hearly : preChecks F ≠ none ∨ continuity F (mk B Fl) ≠ none ∨ validateBlocks F.blocks cfg.bs = false := by
-      by_cases h1 : preChecks F = none
-      · by_cases h2 : continuity F (mk B Fl) = none
-        · right; right
-          cases hv : validateBlocks F.blocks cfg.bs with
-          | false => rfl
-          | true => exact (block_ahead_checks_fail F cfg.bs B Fl hs hl2 hahead hnd (by omega) h2 hv).elim
-        · exact Or.inr (Or.inl h2)
-      · exact Or.inl h1
-    obtain ⟨hst, hne⟩ := importRun_early F cfg (mk B Fl) hearly
-    exact ⟨hst, fun _ _ => hne, fun hn => absurd hn hne⟩
+    have hun : (importRun F cfg (mk B Fl)).2.st = mk B Fl := by
+      by_cases hch : (importRun F cfg (mk B Fl)).2.st = mk B Fl
+      · exact hch
+      · obtain ⟨_, hc, hv, _⟩ := importRun_written_validated F cfg _ hch
+        exact (block_ahead_checks_fail F cfg.bs B Fl hs hl2 hahead hnd (by omega) hc hv).elim
+    have hne : (importRun F cfg (mk B Fl)).1 ≠ none := by
+      intro hn
+      obtain ⟨hp, hc, hv⟩ := importRun_ok_facts F cfg _ hn
+      cases hcan : cancelled cfg (2 * valBatches F cfg) with
+      | false =>
+        rw [validatedBody_full F cfg hcan] at hv
+        exact block_ahead_checks_fail F cfg.bs B Fl hs hl2 hahead hnd (by omega) hc hv
+      | true =>
+        rw [importRun_eq_regions F cfg (mk B Fl) _ _ hp hc hv (bChainTip_mk B Fl hl1) (fChainTip_mk B Fl hl2)] at hn
+        refine processRegions_cancelled_err F cfg _ _ _ hcan (Or.inl ?_) hn
+        unfold regions
+        have h1 : B.length - 1 ≠ Fl.length - 1 := by omega
+        have h2 : min (B.length - 1) (Fl.length - 1) + 1 ≤ min (max (B.length - 1) (Fl.length - 1)) (endHeight F) := by
+          omega
+        simp [h1, h2]
+    exact ⟨hun, fun _ _ => hne, fun hn => absurd hn hne⟩
 
 /-- **Failure clause with the block store ahead of the filter store** (outside
 the recorded shape, no `EqualHeights`): whatever error `Import` reports, both
@@ -666,6 +727,7 @@ theorem C14_source_facts :
     Gen.Import.iteratorRanges = ["sourceStartIdx,sourceEndIdx", "sourceStartIdx,sourceEndIdx"] ∧
     Gen.Import.writeOrder = ["block.WriteHeaders", "filter.WriteHeaders", "block.RollbackBlockHeaders"] ∧
     Gen.Import.validatedRanges = ["0,metadata.headersCount - 1", "0,metadata.headersCount - 1"] ∧
+    Gen.Import.cancelCheckBeforeProcessBatch = true ∧ Gen.Import.validatorsReturnNilOnCancel = true ∧
     Gen.Import.rollbackInFilterFailure = true ∧
     Gen.Import.rollbackCount = "uint32(len(blockHeaders))" := by decide
 
@@ -700,6 +762,14 @@ example : importStores exFile { bs := 2 } (importStores exFile { bs := 2 } exSto
 -- the validator's walk on the example file, batch size 3 (7 headers: 3+3+1), and on a file with a broken link
 example : validateWalk 3 7 none exFile.blocks = true ∧
     validateWalk 3 3 none [⟨1, 0, true⟩, ⟨2, 1, true⟩, ⟨3, 9, true⟩] = false := by decide
+-- cancellation: noticed during block-header validation (poll 1 of 4+4), the corrupt rest of the file never validated:
+-- the validators let it pass, the write loop stops before its first batch
+def exBad : File := { exFile with blocks := [⟨1, 0, true⟩, ⟨2, 1, true⟩, ⟨3, 2, true⟩, ⟨4, 3, true⟩, ⟨5, 9, false⟩, ⟨6, 5, true⟩, ⟨7, 6, true⟩] }
+example : importStores exBad { bs := 2 } exStores = (some .invalid, exStores) := by decide
+example : importStores exBad { bs := 2, cancelAt := some 1 } exStores = (some .cancel, exStores) := by decide
+-- noticed between the second and the third write batch of the honest file: two validated batches stay
+example : importStores exFile { bs := 2, cancelAt := some 10 } exStores =
+    (some .cancel, mk (exFile.blocks.take 6) (exFile.filters.take 6)) := by decide
 -- the recorded shape really is what C14_success_counterexample uses
 example : f7Shape (obsOf cexStores) cexFile = true ∧ f7Shape (obsOf cexStores2) cexFile2 = true := by decide
 
